@@ -70,7 +70,7 @@ pub const ALL_HAZARDS: &[&str] = &[
     "unframed_last", "sorted_let", "const_null_fold", "shadow", "const_group_key", "compound_agg", "win_over_win",
     "mul_right", "sorted_group_derive", "sort_key_rename", "dropped_key_join", "wild_let", "const_fold",
     "group_take_sort_agg", "resort_after_take", "sort_by_windowed", "take_far_from_sort", "sorted_aggregate",
-    "multi_take_agg", "computed_key_join",
+    "multi_take_agg", "computed_key_join", "take_distinct",
 ];
 
 /// The resolver's output does not depend on the SQL back-end's defects: all constructs are generated.
